@@ -20,7 +20,7 @@ checks = {
 "C06": ("exploration", "Twin simulated worlds without/with injected non-admitted lines (torn, foreign, NOT NULL-failing, garbage) in the main input, the joined file, across file boundaries and in the follow-mode append stream; outputs must be byte-identical for plain/DISTINCT/LIMIT/aggregate/join statements in batch and follow mode; the admission rule itself is checked on the generated table family where the typed row is known by construction; a size regime adds noise lines of 8 KiB / 64 KiB / 128 KiB of padding followed by a valid record.", "3 (C06)"),
 "C07": ("exploration", "LIMIT n swept over 0..rows+2 per generated case in batch mode (1..3 files, joins with fan-out, DISTINCT, NULL-only rows, aggregates) and follow mode (writer stops after the line producing the n-th row: the follower must return by itself within 64 EOF polls); rows compared with the unlimited statement fed line by line, consumption judged from statistics.total_lines and line-granular fetch counts at the read(2) seam; twins: print_result=false, pipe inputs, the query twice under one interrupt flag, an engine handed over after the caller reached the limit itself.", "3 (C07)"),
 "C10": ("exploration", "Seeded search over writer chunkings (down to single bytes, inside multi-byte characters, around the newline) x poll placements x reader buffer sizes x short reads/EINTR, driving the real FollowFileIterator and the whole FollowFileExecutor through the libc seam against a byte-vector reference model; prefix safety at every seam event, completeness at every quiescent point and at the end; a third of the whole-executor runs are interrupted (running.store(false)) before a seeded seam event, after which only prefix safety is demanded.", "3 (C10)"),
-"C11": ("exploration", "For every prefix length k of generated inputs: the engine fed line by line (the call follow mode makes) and the real FollowFileExecutor under generated writer/poll schedules versus a batch FileExecutor world over exactly the first k lines; statements incl. DISTINCT, HAVING, both, COUNT(DISTINCT), PERCENTILE, ARRAY_AGG/STRING_AGG.", "3 (C11)"),
+"C11": ("exploration", "For every prefix length k of generated inputs: the engine fed line by line (the call follow mode makes) and the real FollowFileExecutor under generated writer/poll schedules versus a batch FileExecutor world over exactly the first k lines; statements incl. DISTINCT, HAVING, both, COUNT(DISTINCT), PERCENTILE, ARRAY_AGG/STRING_AGG; a size regime feeds 4 300-9 500 lines into one or two groups under PERCENTILE / COUNT(DISTINCT) and compares with batch runs at eight seeded prefix lengths beyond 4096 values and at the end.", "3 (C11)"),
 "C12": ("fault_enumeration", "Batch reader under short reads, EINTR, file splits, CRLF, missing final newline, lines over several 8 KiB refills; per generated scenario the undecodable-line position is enumerated over EVERY line of every file and the EIO position over every read; main input and the joined-file loader; model = concatenated split-at-newline lines.", "3 (C12)"),
 "C15": ("exploration", "Arrival order as a scripted merge of producers: every permutation (<=4 lines) or reverse/rotations/producer merges/random orders (<=40) of the same lines through batch FileExecutor (and a subset through FollowFileExecutor) must give the identical table; split law (counts/sums add, min/max combine, groups union) checked by combining the parts' tables in the harness.", "3 (C15)"),
 "C18": ("exploration", "getrandom seam: the same (definitions, statement, input) is executed on fresh threads under K scripted RandomState key blocks (8 quick / 64 thorough), twice under the same block, repeatedly inside one thread and for a fraction under real OS entropy; all outputs byte-identical; likewise under other TZ/locale settings, with the input cut into several files, with no other tables defined, on an engine that loaded its joined table before, and after other queries of the same process (history oracle). The two orders the statement fixes outright (joined partners in joined-file order, TEXT group keys ascending) are checked directly. A failure replays with the very keys that caused it.", "3 (C18)"),
